@@ -222,7 +222,7 @@ def _export_json(obj: Any) -> dict | float | int | str | bool | None:
         }
     # jax data types
     if obj in JAX_DTYPES:
-        str_name = str(obj).split("'")[1]
+        str_name = f"jax.numpy.{np.dtype(obj).name}"
         return {
             "__dtype__": str_name,
         }
